@@ -38,7 +38,7 @@ CHECKS = {
  "C11": ("fault_enumeration", "fault enumeration over generated caches: every strict prefix (also at a 4-aligned address), every single-field header edit and bit flip, magic/version edits at a 4-aligned address and on buffers cut right behind the header, foreign headers; expected error kind from the independent layout model",
    "Per generated cache the fault space (all prefixes, all listed header edits) is enumerated completely; files are generated with proptest.",
    "Complete per file, not over all files. Buffers 8-byte aligned.", "DESIGN.md §4 C11"),
- "C12": ("exploration", "property-based testing (proptest) with structured corruption operators on valid caches (small, tall, and 4096+-class caches), panic/overflow detection, pointer-range oracle and a placement-independence relation (same buffer surrounded by different bytes => same answers); deep queries in a child process; libFuzzer stage in thorough",
+ "C12": ("exploration", "property-based testing (proptest) with structured corruption operators on valid caches (small, tall, and 4096+-class caches), panic/overflow detection, pointer-range oracle and a placement-independence relation (same buffer surrounded by different bytes => same answers); deep queries in a child process; libFuzzer stage in thorough (AddressSanitizer build over exact-size buffer allocations: a reproducing sanitizer report is a violation even when every answer is unchanged)",
    "Generated-input search over corrupted buffers x the query universe; thorough adds exhaustive (field,value) edits of small files and a coverage-guided libFuzzer campaign with the oracle in-target.",
    "Overflow is observable because the harness builds the crate with overflow-checks. test()/display()/debug_* helpers excluded.", "DESIGN.md §4 C12"),
  "C13": ("exploration", "property-based testing (proptest) / fuzzing of the whole pipeline with hostile numbers, mutants, raw bytes, scale mappings and every mapper constructor; no-panic/no-error oracle; deep inputs answered in a child process so that a stack overflow (an abort, not a panic) is attributed; libFuzzer stage in thorough",
